@@ -18,7 +18,8 @@ use crate::{
 };
 
 use super::{
-    duration::normalized::NormalizedDurationRecord, Duration, PartialDate, PlainDate, PlainDateTime,
+    duration::{normalized::NormalizedDurationRecord, TimeDuration},
+    Duration, PartialDate, PlainDate, PlainDateTime,
 };
 
 /// The native Rust implementation of `Temporal.YearMonth`.
@@ -49,6 +50,15 @@ impl PlainYearMonth {
         duration: &Duration,
         overflow: ArithmeticOverflow,
     ) -> TemporalResult<Self> {
+        // The duration may only move a year-month by whole years and months: weeks and days
+        // (including whole days carried by the time units) are rejected.
+        let (balance_days, _) =
+            TimeDuration::from_normalized(duration.time().to_normalized(), Unit::Day)?;
+        if duration.weeks() != 0.0 || duration.days().checked_add(&balance_days)? != 0.0 {
+            return Err(TemporalError::range()
+                .with_message("Weeks and days cannot be added to a PlainYearMonth."));
+        }
+
         // Potential TODO: update to current Temporal specification
         let partial = PartialDate::try_from_year_month(self)?;
 
